@@ -516,6 +516,11 @@ def run_scriptplan(tjp_file: str, output_dir: Optional[str] = None) -> tuple[boo
     except Exception as e:
         error_output = stderr_capture.getvalue()
         return (False, error_output or str(e))
+    except SystemExit as e:
+        # MessageHandler.error() ends fatal errors (e.g. an invalid report definition)
+        # with sys.exit(); this interface reports failures to its caller instead
+        error_output = stderr_capture.getvalue()
+        return (False, error_output or f"Report generation failed (exit status {e.code})")
 
 
 def main(argv: Optional[list[str]] = None) -> int:
